@@ -19,9 +19,13 @@
      every stream whose truth changed during the job is pending afterwards (which the during-job
      masks re-establish through `invalidate_covers`; mark updates and edits of referenced tags are
      recorded there since fix 5d1b844 — finding F15).
-  What is assumed, not proved: the search result handed to the completion is the truth at job
-  start for the streams it was asked about (C02–C04), and the frame hypotheses themselves
-  (`features_cover_dependencies`: tied per definition by the scenario harness' own evaluator).
+  These step theorems are CLOSED over whole histories in Pk/Props/C06Reach.lean (`decided_correct_run`:
+  for every history from the initial state "decided ⇒ correct" holds in every state reached), with the
+  structural invariants from Pk/Props/MgrReach.lean.  What remains assumed there, as explicit contracts:
+  the search result handed to a completion is the truth at job start for the streams it was asked about
+  (`ResultOK`; that is C02–C04), how the truth may move per dependency class and along references
+  (`TruthStep`; exercised per definition by the scenario harness' own evaluator), and three payload facts
+  (`ImportAddsNew`, `EvFeatOK`, `JobTextOK`) — each with a machine-checked counterexample.
 
   ADDED (proof phase): `inheritTagUncertainty` / `invalidateTags` do not only add pending ids, they
   also *replace* a pending set by `{0..all-1}`.  "Pending never shrinks" therefore needs that
